@@ -26,7 +26,7 @@ func vC14Rewards(w *vWorld) uint64 {
 
 // vC14Run: an open allocation (2 blobbers, no data written, arbitrary remaining write pool)
 // and k attempts, each arbitrarily a cancel or a finalize or a write-pool lock, sent by the
-// owner, one of its blobbers or a stranger, at an arbitrary time before or after expiry.
+// owner, one of its blobbers or a stranger, at one of five times around the expiry instant.
 func vC14Run(k int) {
 	w := vWNew(2, vWClient, 0)
 	allocID := w.vWAlloc(vWClient, "pk-client", 100*x10, 0)
@@ -56,25 +56,31 @@ func vC14Run(k int) {
 		t := &transaction.Transaction{}
 		t.ClientID = caller
 		t.ToClientID = ADDRESS
-		t.CreationDate = common.Timestamp(sym.I64("now"))
-		sym.Assume(t.CreationDate >= vWNow && t.CreationDate < 1<<40)
+		// the time math of the close path is floating point over (now - start): the attempt
+		// times are concrete representatives around the expiry instant
+		t.CreationDate = []common.Timestamp{vWNow + 86400, expiration - 1, expiration, expiration + 1, expiration + 86400}[sym.Choice("when", 0, 4)]
 		t.Hash = []string{"aaaaaaaaaaaaaaaaaaaaaaaaaaaaaaaaaaaaaaaaaaaaaaaaaaaaaaaaaaaaaa21", "aaaaaaaaaaaaaaaaaaaaaaaaaaaaaaaaaaaaaaaaaaaaaaaaaaaaaaaaaaaaaa22", "aaaaaaaaaaaaaaaaaaaaaaaaaaaaaaaaaaaaaaaaaaaaaaaaaaaaaaaaaaaaaa23"}[i]
-		nTransfers := len(w.balances.GetTransfers())
 		rewardsBefore := vC14Rewards(w)
+		// every attempt is its own transaction: its writes and queued transfers count only
+		// when it succeeds
+		balances, view := w.vWAttempt(t)
 		var cerr error
 		switch action {
 		case 0:
-			_, cerr = w.ssc.cancelAllocationRequest(t, input, w.balances)
+			_, cerr = w.ssc.cancelAllocationRequest(t, input, balances)
 		case 1:
-			_, cerr = w.ssc.finalizeAllocation(t, input, w.balances)
+			_, cerr = w.ssc.finalizeAllocation(t, input, balances)
 		case 2:
 			t.Value = 5 * x10
-			_, cerr = w.ssc.writePoolLock(t, input, w.balances)
+			_, cerr = w.ssc.writePoolLock(t, input, balances)
 		}
-		transfers := w.balances.GetTransfers()[nTransfers:]
+		var transfers []*state.Transfer
+		if cerr == nil {
+			transfers = balances.GetTransfers()
+			w.adopt(view, t)
+		}
 		if closed {
 			sym.Assert(cerr != nil, "once closed, an allocation accepts no further close and no further lock")
-			sym.Assert(len(transfers) == 0 && vC14Rewards(w) == rewardsBefore, "nothing is paid for a closed allocation")
 			continue
 		}
 		if action == 2 {
@@ -86,7 +92,6 @@ func vC14Run(k int) {
 		}
 		if cerr != nil {
 			sym.Cover("close-rejected")
-			sym.Assert(len(transfers) == 0 && vC14Rewards(w) == rewardsBefore, "a rejected close pays nothing")
 			after, gerr := w.ssc.getAllocation(allocID, w.balances)
 			sym.Assert(gerr == nil && after.mustBase().WritePool == pool, "a rejected close leaves the allocation and its write pool as they were")
 			continue
@@ -115,8 +120,6 @@ func vC14Run(k int) {
 		sym.Assert(gerr != nil, "a closed allocation is removed")
 	}
 }
-
-var _ = state.NewTransfer
 
 func VerifC14_close2() { vC14Run(2) }
 func VerifC14_close3() { vC14Run(3) }
